@@ -312,4 +312,4 @@ def check_big(case, ev):
 
 
 def parts(tier):
-    return [Part("scale", strategy=lambda t: big_case(t), check=check_big, quick=(2, 20), thorough=(4, 300)), Part("objective", strategy=lambda t: case_strategy(t), check=check, quick=(8, 250), thorough=(16, 1500))]
+    return [Part("cfg_shapes", enumerate_cases=(lambda t: ({"model": s_, "prios": [[["item", 1]], []][: 1 + (j_ % 2)], "via": j_ % 3} for j_, s_ in enumerate(S.cfg_small_shapes()))), check=check, time_quick=150.0), Part("scale", strategy=lambda t: big_case(t), check=check_big, quick=(2, 20), thorough=(4, 300)), Part("objective", strategy=lambda t: case_strategy(t), check=check, quick=(8, 250), thorough=(16, 1500))]
